@@ -1,12 +1,72 @@
 (* C04 — Topic matching follows MQTT 4.7 in both directions, and the directions agree.
-   Only statements, `exact`, and Print Assumptions. *)
-From Coq Require Import List NArith.
-From Coq.Strings Require Import Byte.
-From GM Require Import Topic.MatchSpec Topic.Levels Topic.Trie.
-Import ListNotations.
+   Only statements, `exact`, and Print Assumptions.
 
-(* the walk of tree.go (topicSegment / topicShorten / "\x00" sentinel) over a NUL-free
-   topic visits exactly the levels of the plain split on '/' *)
+   Objects: Trie.v is the model of topic/tree.go (Match/MatchFirst/Search/SearchFirst on
+   topic strings, through the segment/shorten/"\x00" walk of Levels.v); MatchSpec.v is the
+   reference relation.  `run_trie ops` is the tree after the operation history `ops`;
+   `op_ok` says the topics used by the history are NUL-free. *)
+From Coq Require Import List NArith Bool String.
+From Coq.Strings Require Import Byte.
+From GM Require Import Topic.MatchSpec Topic.Levels Topic.Trie Topic.TrieProofs Topic.TrieMatchProofs
+  Topic.TreeSpec Topic.TrieTopProofs.
+Import ListNotations.
+Open Scope N_scope.
+
+(* the walk of tree.go (topicSegment / topicShorten / sentinel) over a NUL-free topic
+   visits exactly the levels of the plain split on '/' *)
 Theorem C04_walk_is_split : forall s, no_nul s = true -> walk s = split_levels s.
 Proof. exact walk_is_split. Qed.
 Print Assumptions C04_walk_is_split.
+
+(* Match: after ANY history of operations on NUL-free topics (the stored filters need not even be
+   valid), looking up a wildcard-free name returns exactly the values stored under topics that
+   match it under `topic_matches`, each once. *)
+Theorem C04_match : forall ops name v, forallb op_ok ops = true -> wildcard_free name = true ->
+  (In v (Match (run_trie ops) name) <->
+   exists f, no_nul f = true /\ In v (Get (run_trie ops) f) /\ topic_matches f name = true)
+  /\ NoDup (Match (run_trie ops) name).
+Proof. exact match_strings. Qed.
+Print Assumptions C04_match.
+
+(* Search: symmetric; the filter is valid, the stored names are arbitrary NUL-free topics. *)
+Theorem C04_search : forall ops f v, forallb op_ok ops = true -> valid_filter f = true ->
+  (In v (Search (run_trie ops) f) <->
+   exists name, no_nul name = true /\ In v (Get (run_trie ops) name) /\ topic_matches f name = true)
+  /\ NoDup (Search (run_trie ops) f).
+Proof. exact search_strings. Qed.
+Print Assumptions C04_search.
+
+(* the First variants, on every tree and every topic string: nothing iff the full answer is
+   empty, otherwise an element of the full answer *)
+Theorem C04_first : forall (t : tree) (s : list byte),
+  ((MatchFirst t s = None <-> Match t s = []) /\ (forall v, MatchFirst t s = Some v -> In v (Match t s))) /\
+  ((SearchFirst t s = None <-> Search t s = []) /\ (forall v, SearchFirst t s = Some v -> In v (Search t s))).
+Proof. exact firsts_any_tree. Qed.
+Print Assumptions C04_first.
+
+(* a filter matches a name in one direction iff it does in the other: both are `topic_matches` *)
+Theorem C04_directions_agree : forall f name v, valid_filter f = true -> wildcard_free name = true ->
+  (In v (Match (Set_ New f v) name) <-> topic_matches f name = true) /\
+  (In v (Search (Set_ New name v) f) <-> topic_matches f name = true).
+Proof. exact directions_agree. Qed.
+Print Assumptions C04_directions_agree.
+
+(* non-vacuity: a history with wildcards, an empty level, a leading slash, a removal; the
+   hypotheses hold and the answers are the expected ones (parent level matched by '#', not by '+') *)
+Definition b (s : string) : list byte := list_byte_of_string s.
+Definition ex_ops : list op :=
+  [OAdd (b "a/+") 1; OAdd (b "a/#") 2; OAdd (b "a") 3; OAdd (b "/a") 4; OAdd (b "a//c") 5; OAdd (b "+/b") 1;
+   OAdd (b "a/b") 6; ORemove (b "a/b") 6; OAdd (b "#") 7].
+Example C04_nonvacuous :
+  forallb op_ok ex_ops = true /\
+  wildcard_free (b "a/b") = true /\ valid_filter (b "a/+") = true /\ valid_filter (b "+/#") = true /\
+  Match (run_trie ex_ops) (b "a/b") = [7; 1; 2] /\
+  Match (run_trie ex_ops) (b "a") = [7; 2; 3] /\
+  Match (run_trie ex_ops) (b "/a") = [7; 4] /\
+  MatchFirst (run_trie ex_ops) (b "a/b") = Some 7 /\
+  MatchFirst (run_trie (removelast ex_ops)) (b "a/b") = Some 2 /\
+  Search (run_trie ex_ops) (b "a/+") = [1; 2] /\
+  Search (run_trie ex_ops) (b "+/#") = [3; 1; 2; 5; 4; 7] /\
+  topic_matches (b "a/#") (b "a") = true /\ topic_matches (b "a/+") (b "a") = false /\
+  topic_matches (b "+/+") (b "/a") = true /\ topic_matches (b "a/+/c") (b "a//c") = true.
+Proof. vm_compute. repeat split; reflexivity. Qed.
